@@ -51,7 +51,14 @@ def modelled : List String := [
   "ffg.mulByConstant",
   "ffg.neg",
   "ffg.reduce",
-  "ffg.sub"
+  "ffg.sub",
+  "ffg.<decls>@arith.go",
+  "ffg.<decls>@asm.go",
+  "ffg.<decls>@asm_noadx.go",
+  "ffg.<decls>@doc.go",
+  "ffg.<decls>@element.go",
+  "ffg.<decls>@element_ops_amd64.go",
+  "ffg.<decls>@element_ops_noasm.go"
 ]
 
 theorem source_pinned : modelled.all (same I3.Gen.fingerprints) = true := by decide +kernel
@@ -59,6 +66,6 @@ theorem source_pinned : modelled.all (same I3.Gen.fingerprints) = true := by dec
 theorem function_set_pinned : (["ffg."] : List String).all (sameKeys I3.Gen.fingerprints) = true := by
   decide +kernel
 
-theorem modelled_nonempty : 43 = modelled.length := by decide
+theorem modelled_nonempty : 50 = modelled.length := by decide
 
 end I3.Props.C09
